@@ -917,8 +917,10 @@ class Driver:
         self.last_actions = None
         # probe: 'all' - free reads / projections around every modification (each of them flushes pending changes);
         #        'end' - none until the end of the behaviour, so that unflushed changes of several calls accumulate
+        #        'prime' - like 'end', but every collection, count and attribute is read once before the first call,
+        #                  so that the calls work on loaded collections and known counts
         if probe is None:
-            probe = 'all' if rng.random() < 0.5 else 'end'
+            probe = rng.choice(('all', 'end', 'prime'))
         u0 = init if init is not None else rng.choice(g.inits)
         w.reset(g.nodes[u0]['db'])
         ad = Adapter(w, rng)
@@ -935,6 +937,7 @@ class Driver:
         focus = (rng.choice((1, 2)), rng.choice((1, 2)))
         last_kind = None
         last_write = None
+        primed = False
         self.hist = []
         try:
             for step in range(max_steps if plan is None else len(plan) + 1):
@@ -960,6 +963,10 @@ class Driver:
                     self.stats['projections'] += 1
                 pending = any(g.nodes[u]['pendNew'] or g.nodes[u]['pendDel'] or g.nodes[u]['cur'] != g.nodes[u]['tx'] for u in belief)
                 is_write = key[0] not in READ_OPS and key[0] not in CONTROL_OPS
+                if probe == 'prime' and not primed and w.session is not None and key[0] != 'Begin':
+                    primed = True
+                    self.stats['free_reads'] = self.stats.get('free_reads', 0) + \
+                        self.free_reads(ad, belief, ('Delete', 'A', 0, 0, 0), 'before the first call')
                 if is_write and probe == 'all' and rng.random() < 0.6:
                     # prime the caches (counts, loaded collections, query results) before the modification
                     self.stats['free_reads'] = self.stats.get('free_reads', 0) + self.free_reads(ad, belief, key, 'before')
@@ -1025,7 +1032,7 @@ class Driver:
                 elif cur is not None and probe == 'all' and rng.random() < 0.15 and self.can_project(belief):
                     ad.project(cur, 'random-point')
                     self.stats['projections'] += 1
-            if probe == 'end' and last_write is not None and w.session is not None:
+            if probe in ('end', 'prime') and last_write is not None and w.session is not None:
                 # everything the calls of this behaviour left pending is still unflushed here
                 n = self.free_reads(ad, belief, ('Delete', 'A', 0, 0, 0), 'at the end')     # 'Delete' widens to all live objects
                 self.stats['free_reads'] = self.stats.get('free_reads', 0) + n
@@ -1069,9 +1076,11 @@ class Driver:
     def _systematic_one(self, plan, init, depth, nxt):
         if True:
             if True:
-                self.run_behaviour(0, plan=list(plan), init=init, probe='end')
                 if len(plan) <= 2:
-                    self.run_behaviour(0, plan=list(plan), init=init, probe='all')
+                    for mode in ('end', 'prime', 'all'):
+                        self.run_behaviour(0, plan=list(plan), init=init, probe=mode)
+                else:
+                    self.run_behaviour(0, plan=list(plan), init=init, probe='end' if hash(plan) % 2 else 'prime')
                 if len(plan) < depth and self.last_actions:
                     for k in self.last_actions:
                         nxt.append(plan + (k,))
